@@ -100,47 +100,58 @@ func checkC20(c *Ctx) {
 			c.Unresolved("C20.2", s.typ+"."+s.fn, "anchor missing")
 			continue
 		}
-		fl := NewFlow(p, fn)
 		nGood := 0
 		var bad []string
-		eachInstr(fn, func(in ssa.Instruction) {
-			b, ok := in.(*ssa.BinOp)
-			if !ok {
-				return
+		siteFns := map[*ssa.Function]bool{}
+		for _, s2 := range sites {
+			if f2 := p.Method(s2.rel, s2.typ, s2.fn); f2 != nil && f2 != fn {
+				siteFns[f2] = true
 			}
-			switch b.Op {
-			case token.LSS, token.LEQ, token.GTR, token.GEQ:
-			default:
-				return
+		}
+		for _, hf := range helperClosure(p, fn, 2) {
+			if siteFns[hf] {
+				continue // another threshold site, checked on its own
 			}
-			kx, ky := fl.K.Key(b.X), fl.K.Key(b.Y)
-			lenOfVotes := map[string]bool{}
-			for _, v := range []ssa.Value{b.X, b.Y} {
-				if call, ok := v.(*ssa.Call); ok {
-					if bi, ok := call.Call.Value.(*ssa.Builtin); ok && bi.Name() == "len" {
-						ts := call.Call.Args[0].Type().String()
-						if strings.Contains(ts, "TimeoutMsg") || strings.Contains(ts, "PartialCert") {
-							lenOfVotes[fl.K.Key(v)] = true
+			fl := NewFlow(p, hf)
+			eachInstr(hf, func(in ssa.Instruction) {
+				b, ok := in.(*ssa.BinOp)
+				if !ok {
+					return
+				}
+				switch b.Op {
+				case token.LSS, token.LEQ, token.GTR, token.GEQ:
+				default:
+					return
+				}
+				kx, ky := fl.K.Key(b.X), fl.K.Key(b.Y)
+				lenOfVotes := map[string]bool{}
+				for _, v := range []ssa.Value{b.X, b.Y} {
+					if call, ok := v.(*ssa.Call); ok {
+						if bi, ok := call.Call.Value.(*ssa.Builtin); ok && bi.Name() == "len" {
+							ts := call.Call.Args[0].Type().String()
+							if strings.Contains(ts, "TimeoutMsg") || strings.Contains(ts, "PartialCert") {
+								lenOfVotes[fl.K.Key(v)] = true
+							}
 						}
 					}
 				}
-			}
-			isCount := func(k string) bool { return strings.HasPrefix(k, kPartLen) || lenOfVotes[k] }
-			isQ := func(k string) bool { return strings.HasPrefix(k, kQuorumSize) }
-			switch {
-			case isCount(kx) && isQ(ky), isCount(ky) && isQ(kx):
-				nGood++
-			case isCount(kx) || isCount(ky):
-				other := ky
-				if isCount(ky) {
-					other = kx
+				isCount := func(k string) bool { return strings.HasPrefix(k, kPartLen) || lenOfVotes[k] }
+				isQ := func(k string) bool { return strings.HasPrefix(k, kQuorumSize) }
+				switch {
+				case isCount(kx) && isQ(ky), isCount(ky) && isQ(kx):
+					nGood++
+				case isCount(kx) || isCount(ky):
+					other := ky
+					if isCount(ky) {
+						other = kx
+					}
+					if strings.HasPrefix(other, "phi@") || strings.Contains(other, "rangeindex") || strings.HasPrefix(other, "(phi@") {
+						return // loop index against a length
+					}
+					bad = append(bad, p.InstrPos(in)+": count compared with "+other)
 				}
-				if strings.HasPrefix(other, "phi@") || strings.Contains(other, "rangeindex") || strings.HasPrefix(other, "(phi@") {
-					return // loop index against a length
-				}
-				bad = append(bad, p.InstrPos(in)+": count compared with "+other)
-			}
-		})
+			})
+		}
 		c.Check(nGood >= 1 && len(bad) == 0, "C20.2", s.typ+"."+s.fn+": threshold is config.QuorumSize()", p.FuncPos(fn),
 			itoa(nGood)+" ordering comparison(s) of a participant/vote/timeout count, all against RuntimeConfig.QuorumSize()", "comparisons against QuorumSize(): "+itoa(nGood)+"; other thresholds: "+join(bad))
 	}
